@@ -697,12 +697,35 @@ func (d *Document) addHeaderReference(headerType HeaderFooterType, headerID stri
 		sectPr.XmlnsR = "http://schemas.openxmlformats.org/officeDocument/2006/relationships"
 	}
 
+	// 同一类型再次设置页眉时，替换已有引用（每种类型只允许一个引用），并移除旧的关系
+	for _, ref := range sectPr.HeaderReferences {
+		if ref != nil && ref.Type == string(headerType) {
+			d.removeDocumentRelationship(ref.ID, headerID)
+			ref.ID = headerID
+			return
+		}
+	}
+
 	headerRef := &HeaderFooterReference{
 		Type: string(headerType),
 		ID:   headerID,
 	}
 
 	sectPr.HeaderReferences = append(sectPr.HeaderReferences, headerRef)
+}
+
+// removeDocumentRelationship 移除被替换的页眉/页脚引用所使用的旧关系（keepID 为新关系的ID）
+func (d *Document) removeDocumentRelationship(oldID, keepID string) {
+	if oldID == "" || oldID == keepID || d.documentRelationships == nil {
+		return
+	}
+	rels := d.documentRelationships.Relationships
+	for i := range rels {
+		if rels[i].ID == oldID {
+			d.documentRelationships.Relationships = append(rels[:i:i], rels[i+1:]...)
+			return
+		}
+	}
 }
 
 // addFooterReference 添加页脚引用到节属性
@@ -712,6 +735,15 @@ func (d *Document) addFooterReference(footerType HeaderFooterType, footerID stri
 	// 确保设置关系命名空间
 	if sectPr.XmlnsR == "" {
 		sectPr.XmlnsR = "http://schemas.openxmlformats.org/officeDocument/2006/relationships"
+	}
+
+	// 同一类型再次设置页脚时，替换已有引用，并移除旧的关系
+	for _, ref := range sectPr.FooterReferences {
+		if ref != nil && ref.Type == string(footerType) {
+			d.removeDocumentRelationship(ref.ID, footerID)
+			ref.ID = footerID
+			return
+		}
 	}
 
 	footerRef := &FooterReference{
